@@ -58,6 +58,9 @@ func (p *Program) isExecuted(pkgPath string) bool {
 
 // skipInit: packages whose init is not run (their globals are opaque).
 func (p *Program) skipInit(pkgPath string) bool {
+	if pkgPath == "github.com/shopspring/decimal" {
+		return false
+	}
 	if !strings.HasPrefix(pkgPath, RepoModule) {
 		return true
 	}
